@@ -144,6 +144,9 @@ func (g *VCGen) runDefers(x *ssa.RunDefers) {
 	for i := len(g.deferred) - 1; i >= 0; i-- {
 		d := g.deferred[i]
 		if !d.Block().Dominates(x.Block()) {
+			if !blockReaches(d.Block(), x.Block()) {
+				continue // this exit is not downstream of the defer statement
+			}
 			panic(unsupported("conditional defer"))
 		}
 		g.callInstr(d, nil)
@@ -163,4 +166,22 @@ func (g *VCGen) makeClosure(x *ssa.MakeClosure) {
 	g.closures[x] = x
 	fn := x.Fn.(*ssa.Function)
 	g.vals[x] = SpecVal{g.fnConst(fn), "Int", x.Type()}
+}
+
+func blockReaches(from, to *ssa.BasicBlock) bool {
+	seen := map[*ssa.BasicBlock]bool{}
+	stack := []*ssa.BasicBlock{from}
+	for len(stack) > 0 {
+		b := stack[len(stack)-1]
+		stack = stack[:len(stack)-1]
+		if b == to {
+			return true
+		}
+		if seen[b] {
+			continue
+		}
+		seen[b] = true
+		stack = append(stack, b.Succs...)
+	}
+	return false
 }
